@@ -173,6 +173,8 @@ class Source:
                             if k < hi and text[k] in ';.?=':
                                 it.body_open = None
                                 continue
+                            if it.kind == 'other' and re.match(r'else\b', text[k:k + 5]):
+                                continue       # `if c { .. } else { .. }` is one expression
                         break
                     if c in '([':
                         j = match_close(text, mask, j) + 1
